@@ -66,6 +66,13 @@ func (c *c11) raw(ch *kernel.Chooser) string {
 		state, nonce = strings.ReplaceAll(state, "\x00", ""), strings.ReplaceAll(nonce, "\x00", "")
 	}
 	respType := ch.Pick("code", "code", "id_token token", "id_token")
+	// the same set of response types in the other order (RFC 6749 3.1.1: the order of values does not matter): whether
+	// the provider accepts that spelling is its business; if it does, the response is the implicit flow's
+	respTypeSent := respType
+	if respType == "id_token token" && ch.Bool(1, 3) {
+		respTypeSent = "token id_token"
+		c.o.Probe("response-type-in-the-other-order")
+	}
 	client := ch.Pick("web", "web", "native")
 	cl := w.Store.Clients[client]
 	redirect := cl.Redirects[ch.Int(len(cl.Redirects))]
@@ -97,12 +104,15 @@ func (c *c11) raw(ch *kernel.Chooser) string {
 	if storageErrAt == "authorize" {
 		inject()
 	}
-	s, resp := startAuthz(w, c.b, flowOpts{client: client, scopes: []string{oidc.ScopeOpenID}, responseType: respType, responseMode: mode, state: state, noState: noState, nonce: nonce, redirect: redirect, pkce: map[bool]string{true: "S256", false: "none"}[cl.Public()]})
+	s, resp := startAuthz(w, c.b, flowOpts{client: client, scopes: []string{oidc.ScopeOpenID}, responseType: respTypeSent, responseMode: mode, state: state, noState: noState, nonce: nonce, redirect: redirect, pkce: map[bool]string{true: "S256", false: "none"}[cl.Public()]})
 	w.Store.Inject = nil
-	desc := fmt.Sprintf("raw %s type=%q mode=%q redirect=%q state=%q err=%v storage-error=%q", client, respType, mode, redirect, state, wantErr, storageErrAt)
+	desc := fmt.Sprintf("raw %s type=%q mode=%q redirect=%q state=%q err=%v storage-error=%q", client, respTypeSent, mode, redirect, state, wantErr, storageErrAt)
 	if storageErrAt == "authorize" {
 		if s.authReq != "" {
 			return desc + " -> fault not reached"
+		}
+		if c.faultMethod == "" {
+			return desc + fmt.Sprintf(" -> refused (%d) before any storage call failed", resp.Status) // e.g. a spelling of the response type the provider does not accept
 		}
 		return c.storageError(desc, resp, state, redirect, mode, respType)
 	}
@@ -160,6 +170,17 @@ func (c *c11) raw(ch *kernel.Chooser) string {
 	}
 	c.o.Probe("responses-decoded")
 	c.o.Probe("mode-" + ar.Mode)
+	// where the parameters travel: as the request asked, else by the default of the response type (code: query; anything
+	// that carries a token: fragment - a user agent app reads location.hash and finds nothing in it otherwise)
+	wantMode := mode
+	if wantMode == "" {
+		wantMode = map[bool]string{true: "query", false: "fragment"}[respType == "code"]
+	}
+	if wantMode == "form_post" && ar.Mode != "form_post" && wantErr {
+		c.o.Probe("form_post-error-delivered-by-redirect") // the provider delivers errors by redirect; the values are judged below
+	} else if ar.Mode != wantMode {
+		c.viol("mode", wantMode+"/"+map[bool]string{true: "error", false: "success"}[wantErr], "%s: the response arrived in the %s, the request asks for %s delivery (response_type %q, response_mode %q)", desc, ar.Mode, wantMode, respTypeSent, mode)
+	}
 	p := ar.Params
 	// where did it go
 	if ar.Mode == "form_post" {
